@@ -23,7 +23,8 @@ Definition inst_verify_big (bits : N) (k : N) (m : N) (v : sval) : bool :=
   | SBytes _ => false
   end.
 
-(* AEAD: body = key :: len nonce :: nonce ++ len aad :: aad ++ msg  (an injective encoding of everything bound) *)
+(* AEAD: body = rev (key :: len nonce :: nonce ++ len aad :: aad ++ len msg :: msg): an injective, self-delimiting
+   encoding of everything an ideal AEAD binds, reversed so that no body is a proper suffix of another one *)
 Fixpoint strip_prefix (p l : bytes) : option bytes :=
   match p, l with
   | [], _ => Some l
@@ -31,14 +32,19 @@ Fixpoint strip_prefix (p l : bytes) : option bytes :=
   | _ :: _, [] => None
   end.
 Definition lp (l : bytes) : bytes := N.of_nat (length l) :: l.
-Definition inst_enc (k : N) (nonce aad m : bytes) : bytes := k :: lp nonce ++ lp aad ++ m.
+Definition inst_code (k : N) (nonce aad m : bytes) : bytes := k :: lp nonce ++ lp aad ++ lp m.
+Definition inst_enc (k : N) (nonce aad m : bytes) : bytes := rev (inst_code k nonce aad m).
 Definition inst_dec (k : N) (nonce aad c : bytes) : option bytes :=
-  match c with
+  match rev c with
   | [] => None
   | k' :: r =>
       if k' =? k then
         match strip_prefix (lp nonce) r with
-        | Some r2 => strip_prefix (lp aad) r2
+        | Some r2 =>
+            match strip_prefix (lp aad) r2 with
+            | Some (l :: m) => if l =? N.of_nat (length m) then Some m else None
+            | _ => None
+            end
         | None => None
         end
       else None
